@@ -123,7 +123,7 @@ TABLE = {
                                            "Helvetica, proportionalSansSerif"],
                                  "invalid": [(v, "invalid-accepted:font_stack") for v in (5, ["Arial"], {"a": 1})]},
   ("stl_reader", "max_row_count"): {"type": "rows", "default": 23, "valid": ["MNR", 23, 11, 15, 2, 99],
-                                    "invalid": [(v, "invalid-accepted:max_row_count") for v in ("abc", "23", "", [23], {"a": 1})]},
+                                    "invalid": [(v, "invalid-accepted:max_row_count") for v in ("abc", "23", "", [23], {"a": 1}, 0, -5, True)]},
   ("srt_writer", "text_formatting"): _bool_key(True),
   ("vtt_writer", "line_position"): _bool_key(False),
   ("vtt_writer", "text_align"): _bool_key(False),
